@@ -91,6 +91,12 @@ impl CidStore<RawValue> {
     pub fn verify_raw_value(&self) -> Result<(), CidStoreVerificationError> {
         for (cid, value) in &self.0 {
             verify_raw_value(cid, value.as_inner())?;
+            value
+                .try_get_value()
+                .map_err(|error| CidStoreVerificationError::MalformedValue {
+                    cid_repr: cid.get_inner(),
+                    error: error.to_string(),
+                })?;
         }
         Ok(())
     }
@@ -107,6 +113,9 @@ pub enum CidStoreVerificationError {
         target_type_name: &'static str,
         target_cid_repr: Rc<CidRef>,
     },
+
+    #[error("Value for CID {cid_repr:?} is not a valid JSON: {error}")]
+    MalformedValue { cid_repr: Rc<CidRef>, error: String },
 }
 
 impl<Val> Default for CidStore<Val> {
